@@ -5,6 +5,7 @@
 
 mod adapt;
 mod e1;
+mod e2;
 mod payload;
 
 use std::cell::RefCell;
@@ -14,6 +15,14 @@ thread_local! {
   static PROPERTY: RefCell<String> = RefCell::new(String::new());
 }
 static GLOBAL_PROPERTY: std::sync::OnceLock<String> = std::sync::OnceLock::new();
+static OPEN_FINDINGS: std::sync::OnceLock<Vec<String>> = std::sync::OnceLock::new();
+
+/// Is the known finding `id` open (listed, and its witness still failing on this tree)?
+/// Interpreters use this to exclude its trigger by construction; when the witness stops
+/// failing the exclusion switches itself off.
+pub fn finding_open(id: &str) -> bool {
+  OPEN_FINDINGS.get().map(|v| v.iter().any(|x| x == id)).unwrap_or(false)
+}
 
 pub fn current_property() -> String {
   GLOBAL_PROPERTY.get().cloned().unwrap_or_default()
@@ -41,6 +50,10 @@ fn run_replay(r: &Replay) -> Option<Failure> {
       let s: e1::Scenario = vcore::from_value(&r.scenario);
       e1::execute(&s).err()
     }
+    "E2" => {
+      let s: e2::Scenario = vcore::from_value(&r.scenario);
+      e2::execute(&s).err()
+    }
     other => {
       eprintln!("unknown engine {other}");
       std::process::exit(2)
@@ -50,11 +63,24 @@ fn run_replay(r: &Replay) -> Option<Failure> {
 
 fn check_e1(check: &mut Check, flavours: Vec<adapt::Flavour>) {
   let ctx = check.ctx.clone();
-  let w = e1::weights_for(&ctx.property);
-  let cases = ctx.tier.pick(40_000u64, 2_000_000u64);
+  let w = e1::weights_for(&std::env::var("VERIF_WEIGHTS").unwrap_or_else(|_| ctx.property.clone()));
+  let cases = std::env::var("VERIF_CASES").ok().and_then(|s| s.parse().ok()).unwrap_or(ctx.tier.pick(40_000u64, 2_000_000u64));
   let max_ops = ctx.tier.pick(60usize, 120usize);
   let out = vcore::drive(&ctx, &check.findings, 1, cases, move || e1::scenario_strategy(flavours.clone(), w, max_ops), |s| e1::execute(s));
   check.absorb("E1", out);
+}
+
+fn check_e2(check: &mut Check, flavours: Vec<adapt::Flavour>) {
+  let ctx = check.ctx.clone();
+  let cases = std::env::var("VERIF_CASES2").ok().and_then(|s| s.parse().ok()).unwrap_or(ctx.tier.pick(30_000u64, 1_500_000u64));
+  let max_ops = ctx.tier.pick(50usize, 90usize);
+  let lw = if ctx.property == "C04" || ctx.property == "C09" { 2 } else { 1 };
+  let flavours: Vec<adapt::Flavour> = match std::env::var("VERIF_FLAVOUR") {
+    Ok(f) => flavours.into_iter().filter(|x| x.name() == f).collect(),
+    Err(_) => flavours,
+  };
+  let out = vcore::drive(&ctx, &check.findings, 2, cases, move || e2::scenario_strategy(flavours.clone(), lw, max_ops), |s| e2::execute(s));
+  check.absorb("E2", out);
 }
 
 fn main() {
@@ -87,6 +113,15 @@ fn main() {
         Err(f) => println!("scenario fails: [{}] {} :: {}", f.property, f.signature, f.message),
       }
     }
+    Some("run-e2") => {
+      let txt = std::fs::read_to_string(&args[2]).expect("read scenario");
+      let sc: e2::Scenario = serde_json::from_str(&txt).expect("decode scenario");
+      let _ = GLOBAL_PROPERTY.set(args.get(3).cloned().unwrap_or_else(|| "C06".into()));
+      match e2::execute(&sc) {
+        Ok(_) => println!("scenario passes"),
+        Err(f) => println!("scenario fails: [{}] {} :: {}", f.property, f.signature, f.message),
+      }
+    }
     Some("check") => {
       let prop = args[2].clone();
       let tier = args.get(3).cloned().unwrap_or_else(|| "quick".into());
@@ -95,10 +130,20 @@ fn main() {
       let mut check = Check::new(ctx);
       check.run_witnesses(&|r| run_replay(r));
       check.run_regressions(&|r| run_replay(r));
+      let _ = OPEN_FINDINGS.set(check.findings.findings.iter().filter(|f| f.status == "open").map(|f| f.id.clone()).collect());
       let (rule, assumptions): (String, Vec<String>) = match prop.as_str() {
         "C01" | "C02" | "C03" | "C04" | "C09" => {
-          check_e1(&mut check, adapt::P2P.to_vec());
-          (rule_for(&prop), vec!["sequential histories only in E1 (no overlapping operations)".into()])
+          if std::env::var("VERIF_ONLY").map(|v| v != "E2").unwrap_or(true) {
+            check_e1(&mut check, adapt::P2P.to_vec());
+          }
+          if std::env::var("VERIF_ONLY").map(|v| v != "E1").unwrap_or(true) {
+            check_e2(&mut check, adapt::P2P.to_vec());
+          }
+          (rule_for(&prop), vec!["E1: sequential histories (no overlapping operations); E2: single-threaded async histories (overlap through pending futures only)".into()])
+        }
+        "C06" => {
+          check_e2(&mut check, adapt::P2P.to_vec());
+          ("E2 generated poll/wake/cancel histories; non-trivial = two tasks pending on one side and one of them cancelled, or a waker replaced, or a sync operation completed an async waiter; distinct = hash of the scenario".into(), vec!["single-threaded executor owned by the harness; wakes are counted per task".into()])
         }
         _ => {
           eprintln!("property {prop} is not served by this binary");
@@ -122,7 +167,7 @@ fn main() {
       check.finish(EvidenceMeta {
         level: "exploration",
         rule,
-        engine: "E1 sequential model-based histories (proptest)".into(),
+        engine: "E1 sequential model-based histories + E2 deterministic async poll/wake/cancel histories (proptest)".into(),
         assumptions,
         extra: Default::default(),
       });
